@@ -40,6 +40,37 @@ def judge(ctx, paths, mism, verd):
     return nv, muts
 
 
+def big_run(ctx, binary, tag, n0, rng):
+    """bigger trees, sampled: start from size n0 (built by the harness), two more appends, seeded pairs"""
+    sizes = [n0, n0 + 1, n0 + 2]
+    pairs = set()
+    for s_ in sizes:
+        ms = {0, s_ - 1, rng.randrange(s_), 1 << (s_.bit_length() - 1)}
+        for m in list(ms)[:3] if s_ != n0 else ms:
+            pairs.add((min(m, s_), s_))
+    for _ in range(8):                       # proof generation for older sizes too
+        s_ = rng.randrange(2, n0 + 1)
+        pairs.add((rng.randrange(s_), s_))
+    cfgname = "Merkle_C26_%s.cfg" % tag
+    mc = mk.model_check(ctx, cfgname, mk.cfg_text("SpecBig", n0 + 2, 0, False, 1, ["RootOK", "FileOK", "ProofGenOKS"], PROPS, big=True),
+                        ["Append", "Reload", "GenIncl", "GenCons", "VerifyIncl", "VerifyCons"], timeout=2400,
+                        extra_files={"Merkle_Gen.tla": mk.gen_module([n0], pairs)})
+    if not mc:
+        return None
+    r, edges, inits, names = mc
+    paths, ncov = ctx.cover(edges, inits, max_len=8000)
+    if ncov != len(edges):
+        ctx.infra("cover reaches %d of %d edges (%s)" % (ncov, len(edges), tag))
+    res = mk.replay(ctx, binary, "A", paths, tag)
+    if not res:
+        return None
+    mism, verd, counts = res
+    nv, muts = judge(ctx, paths, mism, verd)
+    ctx.log("%s: start size %d, %d pairs, %d edges replayed in %d paths: %s, %d mismatches" % (tag, n0, len(pairs), len(edges), len(paths), counts, len(mism)))
+    return {"start_size": n0, "pairs": len(pairs), "edges": len(edges), "paths": len(paths), "replayed_by_action": counts,
+            "states_generated": r.generated}
+
+
 def run(ctx):
     binary = ctx.go_test_bin("merkle", harness=mk.HARNESS)
     if ctx.replay_in:
@@ -89,9 +120,16 @@ def run(ctx):
                 ctx.samples.append({"replayed_path_prefix": [s["act"] for s in p["steps"][:6]]})
             for (pi, si, act, real) in verd[:2000:700]:
                 ctx.samples.append({"verdict_case": act, "real": real})
+    bigs = []
+    if ctx.thorough and binary:
+        for tag, n0 in (("bigp", (1 << ctx.rng.choice([6, 7, 8])) - 1), ("bigr", ctx.rng.randrange(17, 298))):
+            b = big_run(ctx, binary, tag, n0, ctx.rng)
+            if b:
+                bigs.append(b)
     ctx.finish("model_checking", {
         "states": ctx.stats["states"], "transitions": ctx.stats["transitions"],
-        "traces_validated_against_impl": len(paths), "replayed_steps": nsteps,
+        "traces_validated_against_impl": len(paths) + sum(b["paths"] for b in bigs), "replayed_steps": nsteps,
+        "sampled_bigger_trees": bigs,
         "replayed_by_action": counts, "verdicts_compared": nv,
         "mutation_cases": {"%s/%s" % k: v for k, v in sorted(muts.items())},
         "constants": {"MaxN_with_replay": n_edge, "MutLevel": 2, "Tear": True}, "bigger_model": big,
